@@ -29,8 +29,25 @@ import (
 // the same name [Simple.Encode] used: a code left out here because its text is
 // implied must be one the implication holds for.
 func (t *Simple) ToUnicode() *cmap.ToUnicodeFile {
+	return t.toUnicode(false)
+}
+
+// ToUnicodeBuiltin is like [Simple.ToUnicode], for a font dictionary which is
+// written with the font's built-in encoding: the reader then has no glyph
+// names to derive text from, so every code with text is listed.
+func (t *Simple) ToUnicodeBuiltin() *cmap.ToUnicodeFile {
+	return t.toUnicode(true)
+}
+
+func (t *Simple) toUnicode(all bool) *cmap.ToUnicodeFile {
 	m := make(map[charcode.Code]string)
 	for k, c := range t.code {
+		if all {
+			if k.text != "" {
+				m[charcode.Code(c)] = k.text
+			}
+			continue
+		}
 		glyphName := t.glyphName[k.gid]
 		implied := names.ToUnicode(glyphName, t.fontName)
 		if k.text != implied {
